@@ -203,11 +203,68 @@ def bounded(spec, T, cap=400.0, steps=400):
     return True
 
 
-def bounded_network(rnd, T, tries=200, cap=400.0, **kw):
+def mass_nonincreasing(spec):
+    """structural screen: every reaction with >=1 reactant makes at most as many molecules as it consumes (immediate+delayed)"""
+    for r in spec["reactions"]:
+        dl = r.get("delay") or {}
+        nin = len(r["reactants"]) + len(dl.get("reactants", []))
+        nout = len(r["products"]) + len(dl.get("products", []))
+        if nin >= 1 and nout > nin:
+            return False
+    return True
+
+
+def ssa_screen(spec, T, max_events=2500, trials=3, seed=1):
+    """pure-Python Gillespie pre-screen (delays treated as zero): False if a trial needs more than max_events events
+    or leaves the non-negative domain, i.e. the network is (stochastically) explosive for trajectory monitors."""
+    import random as _r
+    from . import ref
+    rnd = _r.Random(seed)
+    sp = ref.all_species(spec)
+    S, Sd = ref.stoich(spec)
+    net = []
+    for i in range(len(spec["reactions"])):
+        c = dict(S[i])
+        for k, v in Sd[i].items():
+            c[k] = c.get(k, 0) + v
+        net.append(c)
+    for _ in range(trials):
+        x = {s: float(spec["x0"].get(s, 0)) for s in sp}
+        t, ev = 0.0, 0
+        while True:
+            try:
+                rs = ref.rates(spec, x, spec["params"], 1.0, "stoch", t)
+            except Exception:
+                return False
+            lam = sum(rs)
+            if not (lam > 0):
+                break
+            t += rnd.expovariate(lam)
+            if t > T:
+                break
+            u = rnd.random() * lam
+            acc = 0.0
+            for i, r in enumerate(rs):
+                acc += r
+                if acc >= u:
+                    break
+            for k, v in net[i].items():
+                x[k] += v
+                if x[k] < 0:
+                    return False
+            ev += 1
+            if ev > max_events:
+                return False
+    return True
+
+
+def bounded_network(rnd, T, tries=400, cap=400.0, **kw):
     counters = kw.pop("counters", False)
     for _ in range(tries):
         sp = network(rnd, counters=False, **kw)
-        if bounded(sp, T, cap):
+        if not kw.get("nonmass_consumers") and not mass_nonincreasing(sp):
+            continue
+        if bounded(sp, T, cap) and ssa_screen(sp, T, seed=rnd.getrandbits(30)):
             if counters:
                 add_counters(sp)
             return sp
